@@ -111,6 +111,10 @@ func init() {
 			class += "/" + dv
 		}
 		c.Compare(stream, op, impl, model, class, len(der) > 8)
+		if want, ok := op["_expectVal"]; ok {
+			// ground truth by construction: the independent encoder wrote these values under the PUBLISHED tags
+			c.Compare(stream+".truth", op, M{"ok": impl["ok"], "val": impl["val"]}, M{"ok": true, "val": want}, class, true)
+		}
 	}
 	executors["asn1.kd.marshal"] = func(c *Ctx, stream string, op M) {
 		model := c.Call(M{"op": "asn1.kd.marshal", "val": op["val"]})
@@ -468,8 +472,18 @@ func init() {
 			for i := 0; i < n; i++ {
 				val := genKDVal(c.R, []int{10, 30, 60, 95}[i%4])
 				style := []string{"go", "null", "empty", "bool"}[(i/4)%4]
-				der := encodeKD(val, style, i%3 != 0)
-				executors["asn1.kd.unmarshal"](c, "asn1.kd.valid", M{"op": "asn1.kd.unmarshal", "der": hx(der), "_dev": style})
+				sorted := i%3 != 0
+				der := encodeKD(val, style, sorted)
+				op := M{"op": "asn1.kd.unmarshal", "der": hx(der), "_dev": style}
+				if style == "go" || style == "bool" {
+					// both spellings read as "present"; set-valued members come back in the order they were written
+					if sorted {
+						op["_expectVal"] = expectedBack(val)
+					} else {
+						op["_expectVal"] = val
+					}
+				}
+				executors["asn1.kd.unmarshal"](c, "asn1.kd.valid", op)
 			}
 		}},
 		Stream{"asn1.kd.order", func(c *Ctx) {
